@@ -60,12 +60,20 @@
 //   tolerance of 0.25 grid units yields (pi/2)/sqrt(0.5/(|d|*scaling)) vertices per quarter arc; cases above
 //   5e4 (quick) / 3e5 (thorough) vertices on groups that can have a reflex corner are not executed (counter
 //   skipped_arc_vertex_budget; all of them at 1e12).
+// Nesting is an explicit input dimension: sub-check offset.nested runs closed frames (4 abutting bars, 4
+//   overlapping bars, one key-holed ring) around 1 or 2 inner shapes (square, diamond, L, 2x2 square; inner
+//   shapes in every winding assignment) and frame-in-frame around a centre square, so that the result PolyTree
+//   has islands inside holes (depth 3 and 5); all distances (0.2 keeps the nesting, 0.5 closes the unit gap
+//   exactly, >= 1 merges island and frame; -0.2 keeps, <= -0.5 makes unit features vanish), all joins, both
+//   union settings; frames of bars are touching/overlapping members, so d<0 without union is judged only for
+//   the key-holed frames.  Oracle unchanged.
 // Union option: members of one partition family (same region, different polygons) are offset with
 //   use_union=true and must agree at every sample farther than g from both results' boundaries, and in
 //   area within (perimeter * 2g).
 #include <gdstk/gdstk.hpp>
 
 #include <array>
+#include <functional>
 #include <map>
 #include <set>
 
@@ -241,7 +249,22 @@ static Group build_group(const std::vector<Shape>& shapes) {
     else G.rel = "disjoint";
     // nested members (one strictly inside the other, boundaries apart) are caught by pc.overlapping;
     // a member inside a ring's hole is disjoint.
-    G.comps = (G.rel == "disjoint") ? (int)G.lat.size() : 1;
+    {  // connected components of the region: members are connected when their boundaries meet or one has a
+       // vertex strictly inside the other (an island in the hole of a key-holed ring is NOT connected to it)
+        size_t n = G.lat.size();
+        std::vector<size_t> root(n);
+        for (size_t i = 0; i < n; i++) root[i] = i;
+        std::function<size_t(size_t)> find = [&](size_t i) { return root[i] == i ? i : root[i] = find(root[i]); };
+        for (size_t i = 0; i < n; i++)
+            for (size_t j = i + 1; j < n; j++) {
+                bool conn = c13::poly_gap(G.lat[i], G.lat[j]) == 0;
+                for (auto& v : G.lat[i]) if (!conn && !eg::on_boundary(G.lat[j], v) && eg::winding(G.lat[j], v) != 0) conn = true;
+                for (auto& v : G.lat[j]) if (!conn && !eg::on_boundary(G.lat[i], v) && eg::winding(G.lat[i], v) != 0) conn = true;
+                if (conn) root[find(i)] = find(j);
+            }
+        G.comps = 0;
+        for (size_t i = 0; i < n; i++) if (find(i) == i) G.comps++;
+    }
     {  // every member convex and no two members in contact => the region has no reflex corner
         bool convex = true;
         for (auto& p : G.lat) {
@@ -686,6 +709,46 @@ static std::vector<std::vector<Shape>> extreme_scaling_groups(bool thorough) {
     for (auto& g : out) canon_translate(g);
     return out;
 }
+// nested groups: closed frames (4 abutting bars / 4 overlapping bars / one key-holed ring) around 1 or 2 inner
+// shapes (square, diamond, L; the inner shapes in both windings), and two levels of nesting (frame in frame
+// around a centre square).  The result PolyTree then has islands inside holes (depth 3 and 5).
+static std::vector<std::vector<Shape>> nested_groups() {
+    auto frame = [](int kind, int x0, int y0, int x1, int y1) {
+        std::vector<Shape> f;
+        if (kind == 0) f = {rect(x0, y0, x1, y0 + 1), rect(x0, y1 - 1, x1, y1), rect(x0, y0 + 1, x0 + 1, y1 - 1), rect(x1 - 1, y0 + 1, x1, y1 - 1)};   // abutting bars
+        else if (kind == 1) f = {rect(x0, y0, x1, y0 + 1), rect(x0, y1 - 1, x1, y1), rect(x0, y0, x0 + 1, y1), rect(x1 - 1, y0, x1, y1)};               // overlapping bars
+        else f = {ring(x0, y0, x1, y1, x0 + 1, y0 + 1, x1 - 1, y1 - 1)};                                                                              // key-holed ring
+        for (auto& s : f) if (s.cls == "rect") s.cls = "bar";
+        return f;
+    };
+    auto diamond = [](int cx, int cy) { return poly({{cx, cy - 1}, {cx + 1, cy}, {cx, cy + 1}, {cx - 1, cy}}, "diamond"); };
+    std::vector<std::vector<Shape>> out;
+    auto add = [&](std::vector<Shape> g, std::vector<Shape> inner) {
+        // every winding assignment of the inner shapes (frames stay as built)
+        for (unsigned m = 0; m < (1u << inner.size()); m++) {
+            std::vector<Shape> v = g;
+            for (size_t i = 0; i < inner.size(); i++) { Shape t = inner[i]; t.rev = (m >> i) & 1; v.push_back(t); }
+            out.push_back(v);
+        }
+    };
+    for (int k = 0; k < 3; k++) {
+        // one inner shape in a 3x3 / 4x4 hole, gap 1 all round
+        add(frame(k, 0, 0, 5, 5), {rect(2, 2, 3, 3)});
+        add(frame(k, 0, 0, 6, 6), {diamond(3, 3)});
+        add(frame(k, 0, 0, 6, 6), {lshape(2, 2, 2, 2, 0, 1, 1)});
+        add(frame(k, 0, 0, 6, 6), {rect(2, 2, 4, 4)});
+        // two inner shapes in a 6x4 hole
+        add(frame(k, 0, 0, 8, 6), {rect(2, 2, 3, 3), diamond(5, 3)});
+        add(frame(k, 0, 0, 8, 6), {lshape(2, 2, 2, 2, 2, 1, 1), rect(5, 2, 6, 4)});
+        // two levels: frame in frame around a centre square
+        for (int k2 = 0; k2 < 3; k2 += 2) {
+            std::vector<Shape> g = frame(k, 0, 0, 9, 9), in = frame(k2, 2, 2, 7, 7);
+            g.insert(g.end(), in.begin(), in.end());
+            add(g, {rect(4, 4, 5, 5)});
+        }
+    }
+    return out;
+}
 // partition families: every member of a family covers the same region
 static std::vector<std::vector<std::vector<Shape>>> families() {
     std::vector<std::vector<std::vector<Shape>>> F;
@@ -902,6 +965,10 @@ int main(int argc, char** argv) {
         auto X = extreme_scaling_groups(T);
         run_groups("offset.scaling_large", fmt("%zu groups of the mirrored-slope alphabet (diamonds, isosceles triangles, chevrons, zigzag, octagon, hexagon, rectangles, L, ring; singles and 16 pairs; windings) in Clipper's full-range mode", X.size()), X, 2, {2, 3, 4});
         run_groups("offset.scaling_small", fmt("%zu groups of the same alphabet at the smallest scalings (grid = 1 and 1/8 lattice unit)", X.size()), X, 2, {5, 6});
+    }
+    {
+        auto N = nested_groups();
+        run_groups("offset.nested", fmt("%zu nested groups: closed frames (abutting bars / overlapping bars / key-holed ring) around 1 or 2 inner shapes (square, diamond, L, 2x2 square) in both windings, and frame-in-frame around a centre square", N.size()), N, 2, T ? std::vector<int>{0, 1} : std::vector<int>{0});
     }
     run_families(r1, T);
     run_groups("offset.single.L", T ? "all 1600 L shapes (every position), both orientations" : "144 L shapes (bounding box 2..4, every notch, 4 corners; one per translation class)", singles("L", T, T, T ? LAT : 4), r1);
